@@ -61,6 +61,8 @@ func init() {
 			E9Fills(c, r)
 			E9HitCounting(c, r)
 			E9CubicDirection(c, r)
+			E3ContainmentFilter(c, r)
+			E9TangentFromRoots(c, r)
 		},
 	})
 }
@@ -126,6 +128,7 @@ func init() {
 		Run: func(c *core.Ctx, r *core.Report) {
 			E4LinebreakGuards(c, r)
 			E4AllocCoversIndex(c, r)
+			E4ForcedBreakDeactivates(c, r)
 			r.Rule("E4.panic-reach-linebreak", "no explicit panic(...) is reachable from text.Linebreak")
 			E4PanicReachability(c, r, "E4.panic-reach-linebreak", []*ssa.Function{c.SSAFunc("text", "Linebreak")}, c17ReviewedPanics, true)
 		},
@@ -194,6 +197,8 @@ func init() {
 			E2CloseRewrite(c, r)
 			E2CarriedShadow(c, r)
 			E3DominantAxis(c, r)
+			E3EllipseFrameRotation(c, r)
+			E4NilBranchDeref(c, r)
 			E11SplitCap(c, r)
 			E11StuckVariables(c, r)
 			E11InPlaceInLoop(c, r)
@@ -254,6 +259,7 @@ func init() {
 			E10Flatness(c, r)
 			E2PenReread(c, r)
 			E4StepProgress(c, r)
+			E3ArcAngleFrame(c, r)
 		},
 	})
 }
@@ -263,6 +269,8 @@ func init() {
 		Title:       "Stroke and Offset realise exact distance offsets of the path",
 		Explanation: "Decides one clause only, 'closed subpaths are joined, not capped' (and its dual: open sub-paths are capped iff stroking): in (*Path).offset the closed flag is set exactly by a Close command, every Capper call is control-dependent on !closed && strokeOpen and placed at the two ends, the Joiner wraps around from the last to the first segment when closed, the closed branch closes both offset curves, and Stroke/Offset pass strokeOpen true/false; plus the angle-unit consistency of the arc rotation passed to ArcTo (E8, whole package). NOT decided: every distance clause (w/2 neighbourhood, miter limit, inner-bend repair, offset direction).",
 		Run: func(c *core.Ctx, r *core.Report) {
+			E11JunctionPairing(c, r)
+			E4RadiiNonzero(c, r)
 			E11SubpathLoops(c, r)
 			E11CapJoin(c, r)
 			E8Units(c, r)
@@ -305,6 +313,10 @@ func init() {
 		Title:       "Imported SVG documents draw the geometry the SVG specifies",
 		Explanation: "Decides the unit and coverage tables of the importer for every document: parseDimension's factors equal the CSS absolute-unit and angle tables (constant folding); the canvas size is in millimetres on every branch (explicit width/height and viewBox fallback use the same px→mm factor) and init uses the inverse factor, the y-down coordinate system and the size/viewBox user-unit scale (px→mm without a viewBox); drawShape has a case for each basic shape; the path data parser's index guards and explicit-panic freedom are decided under C11. NOT decided: styling precedence, CSS selectors, transform order, per-element geometry, the write/read round trip.",
 		Run: func(c *core.Ctx, r *core.Report) {
+			E11SVGVocabulary(c, r)
+			E11SVGCascade(c, r)
+			E11SVGTransformSeparator(c, r)
+			E11SVGColorGrammar(c, r)
 			E11SVGTransformTable(c, r)
 			E11CopyStore(c, r)
 			E11ViewBoxMirror(c, r)
